@@ -1168,7 +1168,7 @@ func parseLinkLabel(r *inlineByteReader) linkLabel {
 		}
 		chars++
 		c := r.current()
-		if chars >= maxChars || c == '[' || c == ']' {
+		if chars > maxChars || c == '[' || c == ']' {
 			return linkLabel{NullSpan(), NullSpan()}
 		}
 		if !isSpaceTabOrLineEnding(c) {
@@ -1178,11 +1178,11 @@ func parseLinkLabel(r *inlineByteReader) linkLabel {
 	result.inner.Start = r.pos
 
 	// Consume rest of the label text.
-	for ; chars < maxChars && r.current() != '[' && r.current() != ']'; chars++ {
+	for ; chars <= maxChars && r.current() != '[' && r.current() != ']'; chars++ {
 		if r.current() == '\\' {
 			result.inner.End = r.pos + 1
 			chars++
-			if !r.next() {
+			if chars > maxChars || !r.next() {
 				return linkLabel{NullSpan(), NullSpan()}
 			}
 			if !isSpaceTabOrLineEnding(r.current()) {
